@@ -2,6 +2,8 @@ package e1
 
 import (
 	"context"
+	"encoding/hex"
+	"errors"
 	"fmt"
 	"sync"
 
@@ -125,6 +127,21 @@ func c16GenBlock(c *simk.Choices, tier string) (*c16Block, error) {
 		case 0:
 			a, err = c16Keys.ed[c.Intn(3)].Sign(signed)
 			name = "ed25519"
+			if c.Bool(0.06) {
+				// edge of the signature scheme: a public key of small order with R = identity, s = 0.
+				// Whatever the scheme's verdict on it is, the batched and the one-by-one verifier must agree.
+				var pk ed25519.PublicKey
+				var sig ed25519.Signature
+				raw, _ := hex.DecodeString([]string{
+					"c7176a703d4dd84fba3c0b760d10670f2a2053fa2c39ccc64ec7fd7792ac037a",
+					"26e8958fc2b227b045c3f489f2ef98f0d5dfac05d3c63339b13802886d53fc05",
+					"0000000000000000000000000000000000000000000000000000000000000000",
+				}[c.Intn(3)])
+				copy(pk[:], raw)
+				sig[0] = 1
+				a = &auth.ED25519{Signer: pk, Signature: sig}
+				name = "ed25519-small-order"
+			}
 		case 1:
 			a, err = c16Keys.r1[c.Intn(3)].Sign(signed)
 			name = "secp256r1"
@@ -167,9 +184,13 @@ func c16(r *simk.Run) *simk.Violation {
 		total += len(b.sigs)
 	}
 	stopped := false
+	// in a tenth of the runs the node shuts the pool down while the last block's signatures are still being
+	// verified: the verdict of a job that was accepted before the shutdown must still be right
+	stopDuringLast := c.Bool(0.1)
 	s.Run(r.T, func() {
 		w := workers.NewParallel(cores, 4)
 		var dones sync.WaitGroup
+		var stopWg sync.WaitGroup
 		for bi, blk := range blocks {
 			job, err := w.NewJob(len(blk.sigs) + 1)
 			if err != nil {
@@ -177,7 +198,14 @@ func c16(r *simk.Run) *simk.Violation {
 				return
 			}
 			batch := chain.NewAuthBatch(logging.NoLog{}, auth.DefaultEngines(), job, blk.counts)
-			for _, sg := range blk.sigs {
+			for si, sg := range blk.sigs {
+				if stopDuringLast && bi == len(blocks)-1 && si == len(blk.sigs)/2 {
+					stopWg.Add(1)
+					s.Go("pool.Stop", 0, func() {
+						defer stopWg.Done()
+						w.Stop()
+					})
+				}
 				batch.Add(sg.digest, sg.auth)
 				s.Yield("adder.next", uint64(bi))
 			}
@@ -193,7 +221,11 @@ func c16(r *simk.Run) *simk.Violation {
 			}
 		}
 		dones.Wait()
-		w.Stop()
+		if stopDuringLast && len(blocks[len(blocks)-1].sigs) > 0 {
+			stopWg.Wait()
+		} else {
+			w.Stop()
+		}
 		stopped = true
 	})
 	var sample []any
@@ -227,6 +259,9 @@ func c16(r *simk.Run) *simk.Violation {
 		}
 		if blk.wantInvalid && blk.waitErr == nil {
 			return &simk.Violation{Class: "C16/invalid-signature-accepted", Detail: fmt.Sprintf("block %d: one-by-one verification rejects at least one signature but the batched/parallel job succeeded; workers=%d blocks=%v", bi, cores, sample)}
+		}
+		if stopDuringLast && bi == len(blocks)-1 && errors.Is(blk.waitErr, workers.ErrShutdown) {
+			continue // a job overtaken by the shutdown may be refused as a whole; it must never be reported verified
 		}
 		if !blk.wantInvalid && blk.waitErr != nil {
 			return &simk.Violation{Class: "C16/valid-signatures-rejected", Detail: fmt.Sprintf("block %d: every signature verifies one by one but the batched/parallel job failed with %v; workers=%d blocks=%v", bi, blk.waitErr, cores, sample)}
